@@ -147,6 +147,8 @@ type Exec struct {
 	memoSeq       int
 	pcChecked     int
 	local         *localRun
+	streams       []*StreamObj
+	lastRead      *StreamObj
 	initDone      bool
 	mergeDepth    int
 	pending       []pendingAssert
